@@ -201,6 +201,50 @@ def janetc_check_nil_form : List SkLine :=
     ⟨2, "ret", none, "1"⟩,
     ⟨0, "ret", none, "0"⟩]
 
+def janetc_movenear : List SkLine :=
+   [⟨0, "if", none, "p2.flags & (JANET_SLOT_CONSTANT | JANET_SLOT_REF)"⟩,
+    ⟨1, "call", none, "janetc_loadconst(p0, p2.constant, p1)"⟩,
+    ⟨1, "if", none, "p2.flags & JANET_SLOT_REF"⟩,
+    ⟨2, "call", some .getIndex, "janetc_emit(p0, (p1 << 16) | (p1 << 8) | JOP_GET_INDEX)"⟩,
+    ⟨0, "else", none, ""⟩,
+    ⟨1, "if", none, "p2.envindex >= 0"⟩,
+    ⟨2, "call", some .loadUpvalue, "janetc_emit(p0, ((uint32_t)(p2.index) << 24) | ((uint32_t)(p2.envindex) << 16) | ((uint32_t)(p1) << 8) | JOP_LOAD_UPVALUE)"⟩,
+    ⟨1, "else", none, ""⟩,
+    ⟨2, "if", none, "p2.index != p1"⟩,
+    ⟨3, "call", none, "janet_assert(p2.index >= 0, \"bad slot\")"⟩,
+    ⟨3, "call", some .moveNear, "janetc_emit(p0, ((uint32_t)(p2.index) << 16) | ((uint32_t)(p1) << 8) | JOP_MOVE_NEAR)"⟩]
+
+def janetc_regnear : List SkLine :=
+   [⟨0, "if", none, "p1.envindex < 0 && p1.index >= 0 && p1.index <= 0xFF"⟩,
+    ⟨1, "ret", none, "p1.index"⟩,
+    ⟨0, "let", none, "$0 = janetc_regalloc_temp(&p0->scope->ra, p2)"⟩,
+    ⟨0, "call", none, "janetc_movenear(p0, $0, p1)"⟩,
+    ⟨0, "ret", none, "$0"⟩]
+
+def janetc_emit_sss : List SkLine :=
+   [⟨0, "let", none, "$0 = janetc_regnear(p0, p2, JANETC_REGTEMP_0)"⟩,
+    ⟨0, "let", none, "$1 = janetc_regnear(p0, p3, JANETC_REGTEMP_1)"⟩,
+    ⟨0, "let", none, "$2 = janetc_regnear(p0, p4, JANETC_REGTEMP_2)"⟩,
+    ⟨0, "let", none, "$3 = janet_v_count(p0->buffer)"⟩,
+    ⟨0, "call", none, "janetc_emit(p0, p1 | ($0 << 8) | ($1 << 16) | ((uint32_t)$2 << 24))"⟩,
+    ⟨0, "call", none, "janetc_free_regnear(p0, p3, $1, JANETC_REGTEMP_1)"⟩,
+    ⟨0, "call", none, "janetc_free_regnear(p0, p4, $2, JANETC_REGTEMP_2)"⟩,
+    ⟨0, "if", none, "p5"⟩,
+    ⟨1, "call", none, "janetc_moveback(p0, p2, $0)"⟩,
+    ⟨0, "call", none, "janetc_free_regnear(p0, p2, $0, JANETC_REGTEMP_0)"⟩,
+    ⟨0, "ret", none, "$3"⟩]
+
+def emit2s : List SkLine :=
+   [⟨0, "let", none, "$0 = janetc_regnear(p0, p2, JANETC_REGTEMP_0)"⟩,
+    ⟨0, "let", none, "$1 = janetc_regnear(p0, p3, JANETC_REGTEMP_1)"⟩,
+    ⟨0, "let", none, "$2 = janet_v_count(p0->buffer)"⟩,
+    ⟨0, "call", none, "janetc_emit(p0, p1 | ($0 << 8) | ($1 << 16) | ((uint32_t)p4 << 24))"⟩,
+    ⟨0, "call", none, "janetc_free_regnear(p0, p3, $1, JANETC_REGTEMP_1)"⟩,
+    ⟨0, "if", none, "p5"⟩,
+    ⟨1, "call", none, "janetc_moveback(p0, p2, $0)"⟩,
+    ⟨0, "call", none, "janetc_free_regnear(p0, p2, $0, JANETC_REGTEMP_0)"⟩,
+    ⟨0, "ret", none, "$2"⟩]
+
 def janetc_call_selection : List SkLine :=
    [⟨0, "let", none, "$0 = 0"⟩,
     ⟨0, "if", none, "p2.flags & JANET_SLOT_CONSTANT && !has_spliced(p1)"⟩,
